@@ -88,7 +88,7 @@ def scale_shapes_2d(tier):
     tall = [257, 300, 511, 513, 520, 1031]
     wide = [257, 511, 516]
     s = [(1, 1, h, 6) for h in tall] + [(1, 1, 6, w) for w in wide]
-    s += [(1, 1, 264, 272), (1, 1, 400, 390), (1, 70, 8, 6), (3, 23, 8, 8), (2, 65, 4, 6)]
+    s += [(1, 1, 264, 272), (1, 1, 400, 390), (1, 70, 8, 6), (3, 23, 8, 8), (2, 65, 4, 6), (1, 1, 8300, 3)]
     if tier != 'quick':
         s += [(1, 1, h, 5) for h in (255, 256, 258, 384, 385, 507, 509, 510, 512, 600, 768, 1000, 1023, 1024, 1025, 2049)]
         s += [(1, 1, 7, w) for w in (256, 300, 509, 512, 513, 1023, 1025)]
@@ -97,7 +97,7 @@ def scale_shapes_2d(tier):
 
 
 def scale_shapes_1d(tier):
-    s = [(1, 1, n) for n in (257, 300, 511, 513, 4100, 5003)] + [(1, 70, 33), (3, 23, 40)]
+    s = [(1, 1, n) for n in (257, 300, 511, 513, 4100, 9001)] + [(1, 70, 33), (3, 23, 40)]
     if tier != 'quick':
         s += [(1, 1, n) for n in (255, 256, 509, 512, 1023, 1025, 4095, 4097, 9000, 65537, 70001)] + [(2, 65, 18), (1, 130, 16), (1, 96, 24)]
     return s
